@@ -298,7 +298,7 @@ func Check(c *core.Ctx) (map[string]any, []string, error) {
 			for r := range jobs {
 				err := watchdog(func() {
 					// uninterrupted run (hook counts polls), then the follow-up on the same runtime
-					full := newRunner(0, nil, r.line.Limit, r.line.ID)
+					full := newRunner(0, nil, r.line.Limit, r.line.ID/6)
 					o1, p1 := full.run(r.src)
 					if p1 != nil {
 						c.Violate(fmt.Sprintf("Go panic %v escaped Run without any interrupt armed:\n%s", p1, r.src), map[string]any{"source": r.src})
@@ -322,7 +322,7 @@ func Check(c *core.Ctx) (map[string]any, []string, error) {
 					}
 					for _, k := range ks {
 						payload := payloadOf(k)
-						rn := newRunner(k, payload, r.line.Limit, r.line.ID)
+						rn := newRunner(k, payload, r.line.Limit, r.line.ID/6)
 						o, p := rn.run(r.src)
 						inj := injection{K: k, Delivered: rn.hs.fired == k, Panicked: samePayload(p, payload), Log: o.Log,
 							Depth: otto.VerifScopeDepth(rn.vm) - restDepth(), Labels: otto.VerifLabelCount(rn.vm)}
